@@ -177,6 +177,7 @@ pub fn run(ctx: &mut Ctx, cfg: RecvCfg) -> RecvOut {
     world::swarm(ctx, SwarmOpts { tiny_chunks: !cfg.big, allow_spurious: true, ..Default::default() });
     let plans = draw_plans(ctx, &cfg);
     let cancel_budgets: Vec<u32> = if cfg.cancel { (0..24).map(|_| ctx.plan(6) as u32).collect() } else { vec![] };
+    let replies = matches!(cfg.kind, Kind::Router | Kind::Dealer) && ctx.plan_bool();
     let shared = Rc::new(RefCell::new(Shared::default()));
     {
         let mut s = shared.borrow_mut();
@@ -277,6 +278,7 @@ pub fn run(ctx: &mut Ctx, cfg: RecvCfg) -> RecvOut {
         }
         let mut errs = 0u32;
         let mut cancels = cancel_budgets.into_iter();
+        let app_replies = replies;
         loop {
             let r = match cancels.next() {
                 Some(k) => {
@@ -306,6 +308,16 @@ pub fn run(ctx: &mut Ctx, cfg: RecvCfg) -> RecvOut {
                         if let Err(e) = sock.send(reply).await {
                             sh.borrow_mut().reply_errors.push(e.to_string());
                         }
+                    }
+                    // a server that answers between its recv calls: to the sender (ROUTER) or to
+                    // whoever is next (DEALER) - peers that pipelined and left are answered too, and
+                    // those sends fail; whatever they do must not cost a message still unread
+                    if app_replies && kind == Kind::Router && frames.len() >= 2 {
+                        let _ = sock.send(to_zmq(&[frames[0].clone(), b"re".to_vec()])).await;
+                        rt::count("probe_router_replied_between_recvs");
+                    }
+                    if app_replies && kind == Kind::Dealer {
+                        let _ = sock.send(to_zmq(&[b"re".to_vec()])).await;
                     }
                 }
                 Err(e) => {
